@@ -185,6 +185,31 @@ func (e *Env) metricTables(l *facts.Level, fv *types.Var, m *spec.Metric) {
 		}
 	}
 
+	// IsDefined (where a type has it): true exactly on the values that carry a specification code other than the
+	// Not Defined one (v3: X, v2: ND); false on the unknown/invalid value and on Not Defined
+	if p := load.MethodOf(T, "IsDefined"); p != nil {
+		if sig := p.Type().(*types.Signature); sig.Params().Len() == 0 && sig.Results().Len() == 1 {
+			for _, v := range dom {
+				if v.Kind != facts.VConst {
+					continue // out-of-range integers: the property speaks of the unknown/invalid value and the defined ones
+				}
+				code, ok, why := e.codeOf(T, v)
+				cons := fname(p) + "(" + v.String() + ")"
+				if !ok {
+					c.Undecided("validity", cons, e.P.Pos(p.Pos()), why)
+					continue
+				}
+				want := code != "" && code != "X" && code != "ND"
+				got, bok := boolOf(e.F.Eval(p, v))
+				if !bok {
+					c.Undecided("validity", cons, e.P.Pos(p.Pos()), e.F.Eval(p, v).String())
+					continue
+				}
+				c.Check(got == want, "validity", cons, e.P.Pos(p.Pos()), fmt.Sprintf("%v (code %q)", got, code), fmt.Sprintf("IsDefined is %v for the value with code %q (defined means: a specification code other than Not Defined)", got, code))
+			}
+		}
+	}
+
 	// --- weights -----------------------------------------------------------------
 	if m.NoWeight {
 		e.scopePredicate(l, fv, m, byCode)
